@@ -725,7 +725,7 @@ pub fn apply(s: &mut Stream, name: &'static str, rng: &mut Rng) -> Option<Applie
             let mut c = Vec::new();
             for (l, link) in s.links.iter().enumerate() {
                 for (p, pk) in link.packets.iter().enumerate() {
-                    if pk.rdh.data_format == 2 && !pk.words.is_empty() {
+                    if !pk.words.is_empty() {
                         c.push((l, p));
                     }
                 }
